@@ -16,7 +16,7 @@ MC_INV = {
 T_MON = {
     "C05": ["M_DeliveredOrdered", "M_DeliveredFromStart", "M_DeliveredPrefix", "M_DeliveredMatchesWrite", "M_RefusedDeliversNothing",
             "M_NoSkip", "M_NothingAfterClose", "M_CompleteAtQuiescence"],
-    "C06": ["M_ListWatchAgree", "M_ReadIsSnapshot", "M_HeaderCoversData", "M_NoSkip", "M_DeliveredMatchesWrite"],
+    "C06": ["M_ListWatchAgree", "M_ReadIsSnapshot", "M_ReadStable", "M_HeaderCoversData", "M_NoSkip", "M_DeliveredMatchesWrite", "M_CompleteAtQuiescence", "M_Converged"],
 }
 
 
@@ -86,6 +86,19 @@ def check_watch(prop, tier, seed):
             ("tikv", "registration races on TiKV", dict(W_CONSTS, SubCap=10, WatchStarts=gstarts, ExpSet={0}, ConflictCarriesValue=False), n // 8, ["-cache", "2", "-seqdetail"], 8),
             ("badger", "registration races on Badger", dict(W_CONSTS, SubCap=10, WatchStarts=gstarts, ExpSet={0}), n // 8, ["-cache", "2", "-seqdetail"], 4),
         ]
+        if prop == "C06":
+            # "... while successful writes, failed writes and compactions run concurrently": two writers racing on keys that
+            # start deleted / live (create over a tombstone, lost races), and storage faults + repair + a compaction request
+            plans.append(("memkv", "two writers on deleted and live keys, list-then-watch",
+                          dict(W_CONSTS, SubCap=10, Keys={1}, Writers={"c1", "c2"}, OpsPer=2, InitStates={"deleted", "live", "none"}, WatchStarts={999, 4},
+                               WatchPrefixes={0}, ExpSet={0, 1, 4}, AtomicWrites=False), n // 2, ["-cache", "10", "-seqdetail"], 16))
+            plans.append(("memkv", "two racing creates over a tombstone / a missing key under a watch",
+                          dict(W_CONSTS, SubCap=10, CacheSize=10, Keys={1}, Writers={"c1", "c2"}, OpsPer=1, InitStates={"deleted", "none", "compacted"},
+                               FixedOps="<- MCCreateOnly", WatchStarts={999, 4}, WatchPrefixes={0}, AtomicWrites=False), 300, ["-cache", "10", "-seqdetail"], 8))
+            plans.append(("memkv", "unknown outcomes, repair and a compaction request under a watch from the first revision",
+                          dict(W_CONSTS, SubCap=10, CacheSize=10, Keys={1}, Writers={"c1", "c2"}, OpsPer=1, InitStates={"none", "live", "deleted"}, ExpSet={0, 1, 4},
+                               WatchStarts={4}, WatchPrefixes={0}, FaultKinds={"err", "unka", "unkn"}, FaultBudget=2, Compactors={"k1"}, CompactRevs={0, 4},
+                               MaxCompacts=1, AtomicWrites=False), n // 2, ["-cache", "10", "-seqdetail"], 16))
         if prop == "C05":
             plans.append(("memkv", "slow consumer: subscriber buffer overflows (real capacity 10000, scaled with empty batches)",
                           dict(W_CONSTS, OpsPer=5, SubCap=1, WatchStarts={0, 4, 5, 6}, FixedOps="<- MCAlternate", LazyWatchers={"w1"}, EagerSeq=True),
